@@ -15,6 +15,7 @@ pub mod chrono {
     #[verifier::external_body]
     pub struct ExDuration(Duration);
     pub type TimeDelta = Duration;
+    pub enum SecondsFormat { Secs, Millis, Micros, Nanos, AutoSi }
     pub assume_specification[<Duration as Clone>::clone](d: &Duration) -> (r: Duration) ensures r == *d;
     pub assume_specification<Tz: Clone>[<DateTime<Tz> as Clone>::clone](d: &DateTime<Tz>) -> (r: DateTime<Tz>) ensures r == *d;
 
